@@ -241,6 +241,32 @@ fn raw_audit<K: KeyKind, E, S>(name: &str, c: &RawLRU<K, TV, E, S>) -> Result<()
     Ok(())
 }
 
+/// node addresses of one list (sentinels included)
+fn nodes_of<K, E, S>(c: &RawLRU<K, TV, E, S>) -> Vec<usize> {
+    let a = c.verif_audit(1 << 20);
+    let mut v: Vec<usize> = a.forward.iter().map(|t| t.0).collect();
+    v.push(a.head);
+    v.push(a.tail);
+    v
+}
+
+/// the lists of a composite cache never share a node (an entry migrates by being unlinked from one list first)
+fn disjoint(lists: &[(&str, Vec<usize>)]) -> Result<(), String> {
+    let mut all: Vec<(usize, &str)> = Vec::new();
+    for (n, v) in lists {
+        for a in v {
+            all.push((*a, n));
+        }
+    }
+    all.sort_unstable();
+    for w in all.windows(2) {
+        if w[0].0 == w[1].0 {
+            return Err(format!("node-in-two-lists:{}+{}", w[0].1, w[1].1));
+        }
+    }
+    Ok(())
+}
+
 fn audit_all(rs: &[Result<(), String>]) -> String {
     let errs: Vec<String> = rs.iter().filter_map(|r| r.clone().err()).collect();
     if errs.is_empty() {
@@ -520,7 +546,11 @@ impl<K: KeyKind, S: BuildHasher + Clone> Comp for SlruComp<K, S> {
     }
     fn audit(&self) -> String {
         let (p, q) = self.c.verif_segments();
-        audit_all(&[raw_audit("prob", p), raw_audit("prot", q)])
+        audit_all(&[
+            raw_audit("prob", p),
+            raw_audit("prot", q),
+            disjoint(&[("prob", nodes_of(p)), ("prot", nodes_of(q))]),
+        ])
     }
     fn try_clone(&self) -> Option<Self> {
         Some(SlruComp {
@@ -609,6 +639,7 @@ impl<K: KeyKind, S: BuildHasher> Comp for TwoQComp<K, S> {
             raw_audit("recent", r),
             raw_audit("frequent", f),
             raw_audit("ghost", g),
+            disjoint(&[("recent", nodes_of(r)), ("frequent", nodes_of(f)), ("ghost", nodes_of(g))]),
         ])
     }
     fn census(&self, u: u64) -> String {
@@ -695,6 +726,7 @@ impl<K: KeyKind, S: BuildHasher> Comp for ArcComp<K, S> {
             raw_audit("b1", b1),
             raw_audit("t2", t2),
             raw_audit("b2", b2),
+            disjoint(&[("t1", nodes_of(t1)), ("b1", nodes_of(b1)), ("t2", nodes_of(t2)), ("b2", nodes_of(b2))]),
         ])
     }
     fn census(&self, u: u64) -> String {
@@ -868,6 +900,7 @@ impl<K: KeyKind, S: BuildHasher + Clone> Comp for WtComp<K, S> {
             raw_audit("window", w),
             raw_audit("prob", p),
             raw_audit("prot", q),
+            disjoint(&[("window", nodes_of(w)), ("prob", nodes_of(p)), ("prot", nodes_of(q))]),
         ])
     }
     fn try_clone(&self) -> Option<Self> {
